@@ -519,6 +519,88 @@ static void build(vf::Plan &plan, const vf::Opts &o)
                    [mk](uint64_t i) { return describe_fmt(mk(i)) + " ; and with unterminated string_view arguments of every width"; })
             .case_timeout_s = 5;
     }
+    // text arguments of every type at every length 0..70 (and around 85 / 128 / 256) of a repeated 1-/2-/3-/4-byte character: the
+    // conversion of the argument may work in scratch storage sized by a guess about the text (memory safety here, the text in C11)
+    {
+        static const unsigned TLN[] = {0, 1, 2, 5, 10, 15, 16, 17, 20, 25, 29, 30, 31, 32, 33, 35, 38, 39, 40, 41, 42, 47, 48, 49, 63, 64, 65, 70, 84, 85, 86, 127, 128, 129, 255, 256, 257};
+        enum { NTLN = sizeof TLN / sizeof *TLN };
+        plan.stage(strf("text argument length: %u lengths x 4 character widths x 10 wide / narrow argument types x 2 sinks", (unsigned)NTLN), (uint64_t)NTLN * 4 * 10,
+                   [](uint64_t i, Ctx &c) {
+                       static const char32_t CH[4] = {U'a', 0xE9, 0x8001, 0x1F600};
+                       unsigned ty = (unsigned)vf::take(i, 10), ci = (unsigned)vf::take(i, 4), n = TLN[i];
+                       std::u32string t32(n, CH[ci]);
+                       if (n > 1) t32[n - 1] = ci == 3 ? U'z' : U'\U0001F600';
+                       ST::string ref = ST::string::from_utf32(t32.data(), t32.size());
+                       std::wstring tw(t32.begin(), t32.end());
+                       ST::utf16_buffer b16 = ref.to_utf16();
+                       std::u16string t16(b16.data(), b16.size());
+                       for (int sink = 0; sink < 2; ++sink) {
+                           vf::events_reset();
+                           vf::Outcome oc = vf::guard([&] {
+                               ST::string_stream ss;
+                               ST::string r;
+                               switch (ty) {
+                               case 0: sink ? (void)(ss << t32.c_str()) : (void)(r = ST::format("{}", t32.c_str())); break;
+                               case 1: sink ? (void)(ss << t16.c_str()) : (void)(r = ST::format("{}", t16.c_str())); break;
+                               case 2: sink ? (void)(ss << tw.c_str()) : (void)(r = ST::format("{}", tw.c_str())); break;
+                               case 3: sink ? (void)(ss << ref.c_str()) : (void)(r = ST::format("{}", ref.c_str())); break;
+                               case 4: sink ? (void)(ss << std::u32string_view(t32)) : (void)(r = ST::format("{>3}", std::u32string_view(t32))); break;
+                               case 5: sink ? (void)(ss << std::u16string_view(t16)) : (void)(r = ST::format("{<3}", std::u16string_view(t16))); break;
+                               case 6: sink ? (void)(ss << std::wstring_view(tw)) : (void)(r = ST::format("{}", std::wstring_view(tw))); break;
+                               case 7: sink ? (void)(ss << t32) : (void)(r = ST::format("{}", ST::utf32_buffer(t32.data(), t32.size()))); break;
+                               case 8: sink ? (void)(ss << t16) : (void)(r = ST::format("{}", ST::utf16_buffer(t16.data(), t16.size()))); break;
+                               default: sink ? (void)(ss << tw) : (void)(r = ST::format("{}", ST::wchar_buffer(tw.data(), tw.size()))); break;
+                               }
+                               if (sink) r = ss.to_string();
+                               if (ty != 4 && ty != 5 && r.size() != ref.size()) throw std::runtime_error("wrong length");
+                           });
+                           VF_COUNT("ops");
+                           VF_COUNT("validated");
+                           if (oc.kind == vf::OK) VF_COUNT("out:string");
+                           else
+                               c.fail(oc.kind == vf::EX_ASSERT ? "assert:" + assert_text(oc.what) : std::string("text-argument-length:unexpected:") + vf::outkind_name(oc.kind),
+                                      strf("text argument type #%u, %u characters of width class %u, sink %d: %s", ty, n, ci, sink, oc.str().c_str()));
+                           if (vf::events_total()) {
+                               c.fail(std::string("heap:") + vf::g_alloc.first_event, strf("allocator event: text argument type #%u, %u characters", ty, n));
+                               vf::events_reset();
+                           }
+                       }
+                       if (n > 1) c.nontrivial();
+                   },
+                   [](uint64_t i) {
+                       unsigned ty = (unsigned)vf::take(i, 10), ci = (unsigned)vf::take(i, 4);
+                       return strf("text argument type #%u, %u characters of width class %u", ty, TLN[i], ci);
+                   })
+            .case_timeout_s = 5;
+    }
+    // a FILE* that cannot take the output (opened for reading; a full device): ST::printf has nothing to report an error with, so the
+    // output is lost - but the call must come back
+    {
+        plan.stage("printf to a FILE* that cannot be written (read-only stream, /dev/full unbuffered and buffered): the call returns", 3 * 4,
+                   [](uint64_t i, Ctx &c) {
+                       unsigned kind = (unsigned)vf::take(i, 3), fi = (unsigned)i;
+                       static const char *const FM[4] = {"x", "{}", "{>300}|{}", "literal text long enough to pass the stdio buffer when repeated {} {} {}"};
+                       FILE *f = kind == 0 ? fopen("/dev/null", "r") : fopen("/dev/full", "w");
+                       if (!f) return;
+                       if (kind == 1) setvbuf(f, nullptr, _IONBF, 0);
+                       vf::Outcome oc = vf::guard([&] {
+                           for (int rep = 0; rep < 3; ++rep) {
+                               if (fi == 0) ST::printf(f, FM[0]);
+                               else if (fi == 1) ST::printf(f, FM[1], 42);
+                               else if (fi == 2) ST::printf(f, FM[2], 7, "text");
+                               else ST::printf(f, FM[3], 1, 2.5, "three");
+                               fflush(f);
+                           }
+                       });
+                       fclose(f);
+                       VF_COUNT("ops");
+                       VF_COUNT("validated");
+                       if (!oc.ok()) c.fail(std::string("printf-to-unwritable-FILE:unexpected:") + vf::outkind_name(oc.kind), oc.str());
+                       c.nontrivial();
+                   },
+                   [](uint64_t i) { return strf("printf to unwritable FILE*, kind %u, format #%u", (unsigned)(i % 3), (unsigned)(i / 3)); })
+            .case_timeout_s = 10;
+    }
     vf_early::add_stage(plan);
 }
 
